@@ -6,7 +6,7 @@
    (induction on the fuel; the loop is re-entered at its start pc). *)
 From Coq Require Import ZArith NArith List Bool Lia ZifyBool ZifyNat ZifyN Floats.
 From EvyV Require Import Base Bytecode BytecodeProofs SymTab SymTabProofs Vm VmProofs Compile CompileProofs
-     CompileWfProofs CompileStmtProofs CompileJumpProofs CompileHoleProofs CompileCtlProofs.
+     CompileWfProofs CompileStmtProofs CompileJumpProofs CompileHoleProofs CompileSymProofs CompileCtlProofs.
 Require Import EvyV.Gen.Opcodes.
 Import ListNotations.
 Open Scope N_scope.
@@ -35,6 +35,15 @@ Fixpoint exec_s (fuel : nat) (s : stmt) (env : genv) {struct fuel} : option (gen
           | Some (VNum vstop), Some (VNum vstep), Some (VNum vstart) =>
               if PrimFloat.eqb vstep 0 then None          (* ErrRangeValue *)
               else exec_r f vstart vstep vstop b env
+          | _, _, _ => None
+          end
+      | SForStep (Some n) start stop step b =>
+          (* the loop variable: at top level a global, set to none first *)
+          match eval_expr env stop, eval_expr env (match step with OSome e => e | ONoneE => ENum 1 end),
+                eval_expr env (match start with OSome e => e | ONoneE => ENum 0 end) with
+          | Some (VNum vstop), Some (VNum vstep), Some (VNum vstart) =>
+              if PrimFloat.eqb vstep 0 then None
+              else exec_rv f n vstart vstep vstop b (upd env n VNone)
           | _, _, _ => None
           end
       | SWhile c b =>
@@ -78,6 +87,19 @@ with exec_r (fuel : nat) (idx stp stop : float) (b : slist) (env : genv) {struct
         end
       else Some (env, false)
   end
+(* `for n := range start stop step`, from index idx on *)
+with exec_rv (fuel : nat) (n : str) (idx stp stop : float) (b : slist) (env : genv) {struct fuel} : option (genv * bool) :=
+  match fuel with
+  | O => None
+  | S f =>
+      if going idx stp stop then
+        match exec_l f b (upd env n (VNum idx)) with
+        | Some (env1, false) => exec_rv f n (idx + stp)%float stp stop b env1
+        | Some (env1, true) => Some (env1, false)
+        | None => None
+        end
+      else Some (env, false)
+  end
 (* the condition chain of an if statement: the first true condition runs its block *)
 with exec_c (fuel : nat) (l : clist) (els : oslist) (env : genv) {struct fuel} : option (genv * bool) :=
   match fuel with
@@ -105,7 +127,7 @@ Fixpoint sdepth (s : stmt) : N :=
       N.max (edepth stop)
         (N.max (1 + edepth (match step with OSome e => e | ONoneE => ENum 1 end))
            (N.max (2 + edepth (match start with OSome e => e | ONoneE => ENum 0 end))
-              (N.max 4 (3 + ldepth b))))
+              (N.max 5 (3 + ldepth b))))
   | _ => 0
   end
 with ldepth (l : slist) : N :=
@@ -264,6 +286,40 @@ Lemma step_drop3 p vs pre post a b c base :
 Proof.
   intros HC HI HS. rewrite (fetch_arg p vs Drop 0 3 pre post HC HI eq_refl).
   unfold exec. change (0 * 256 + 3) with 3. cbn [simple_effect]. rewrite HS. reflexivity.
+Qed.
+
+Lemma step_steprange_lv p vs pre post idx stp stop base :
+  pcode p = pre ++ [N_of_opc StepRange; 0; 1] ++ post -> ip vs = N.of_nat (List.length pre) ->
+  ostack vs = VNum idx :: VNum stp :: VNum stop :: base -> PrimFloat.eqb stp 0 = false ->
+  N.of_nat (List.length (locals vs)) + N.of_nat (List.length base) + 5 <= StackSize ->
+  vm_step p vs = Running {| ip := ip vs + 3;
+                            ostack := VBool (going idx stp stop) ::
+                                      (if going idx stp stop then [VNum idx] else []) ++ VNum (idx + stp)%float :: VNum stp :: VNum stop :: base;
+                            locals := locals vs; globals := globals vs |}.
+Proof.
+  intros HC HI HS HZ HR. rewrite (fetch_arg p vs StepRange 0 1 pre post HC HI eq_refl).
+  unfold exec. rewrite HS. cbn [List.length Nat.ltb Nat.leb zero_step]. rewrite HZ.
+  change (0 * 256 + 1) with 1. cbn [step_range N.eqb Pos.eqb negb andb]. rewrite andb_true_r. fold (going idx stp stop).
+  unfold with_stack. destruct (going idx stp stop); cbn [List.length app];
+    match goal with |- (if ?c then _ else _) = _ => destruct c eqn:E; [apply N.ltb_lt in E; lia|reflexivity] end.
+Qed.
+
+Lemma step_onone p vs pre post :
+  pcode p = pre ++ [N_of_opc ONone] ++ post -> ip vs = N.of_nat (List.length pre) ->
+  N.of_nat (List.length (locals vs)) + N.of_nat (List.length (ostack vs)) + 1 <= StackSize ->
+  vm_step p vs = Running {| ip := ip vs + 1; ostack := VNone :: ostack vs; locals := locals vs; globals := globals vs |}.
+Proof.
+  intros HC HI HR. rewrite (fetch_noarg p vs ONone pre post HC HI eq_refl).
+  rewrite (exec_pure p vs ONone 0 (ip vs + 1) 0 VNone); try reflexivity; simpl; lia.
+Qed.
+
+Lemma step_setglobal p vs pre post sg idx v rest :
+  jbytes SetGlobal idx sg -> pcode p = pre ++ sg ++ post -> ip vs = N.of_nat (List.length pre) ->
+  ostack vs = v :: rest -> (N.to_nat idx < List.length (globals vs))%nat ->
+  vm_step p vs = Running {| ip := ip vs + 3; ostack := rest; locals := locals vs; globals := set_nth (N.to_nat idx) v (globals vs) |}.
+Proof.
+  intros (hi & lo & -> & E) HC HI HS HL. rewrite (fetch_arg p vs SetGlobal hi lo pre post HC HI eq_refl).
+  rewrite E. apply exec_setglobal; assumption.
 Qed.
 
 (* ---------- what the simulation assumes about the machine state ---------- *)
@@ -762,6 +818,117 @@ Proof.
         eapply reaches_trans; [apply reaches_step; exact R1|]. eapply reaches_trans; [apply reaches_step; exact R2|exact RE].
 Qed.
 
+(* ---------- a step range WITH a loop variable (a global: top level only) ---------- *)
+(* the loop part, entered with index / step / stop on the stack; y is the slot
+   of the loop variable *)
+Definition LAYRV (b : slist) (y : symbol) (s3 st' : cstate) (seg : list N) : Prop :=
+  exists stx stb bs_b seg_b jf jb sg,
+    jbytes SetGlobal (sidx y) sg /\
+    cconsts stx = cconsts s3 /\ same_resolve (csym stx) (csym s3) /\
+    N.of_nat (List.length (ccode stx)) = N.of_nat (List.length (ccode s3)) + 9 /\
+    LAYL (Some (N.of_nat (List.length (ccode s3)) + N.of_nat (List.length ([N_of_opc StepRange; 0; 1] ++ jf ++ sg ++ seg_b ++ jb)))) b stx stb bs_b seg_b /\
+    jbytes JumpOnFalse (N.of_nat (List.length (ccode s3)) + N.of_nat (List.length ([N_of_opc StepRange; 0; 1] ++ jf ++ sg ++ seg_b ++ jb))) jf /\
+    jbytes Jump (N.of_nat (List.length (ccode s3))) jb /\
+    cconsts st' = cconsts stb /\ csym st' = csym s3 /\
+    seg = [N_of_opc StepRange; 0; 1] ++ jf ++ sg ++ seg_b ++ jb ++ [N_of_opc Drop; 0; 3].
+
+Lemma exec_rv_false : forall fuel n idx stp stop b env env' br,
+  exec_rv fuel n idx stp stop b env = Some (env', br) -> br = false.
+Proof.
+  induction fuel as [|f IH]; intros n idx stp stop b env env' br H; [discriminate|]. cbn [exec_rv] in H.
+  destruct (going idx stp stop); [|inversion H; reflexivity].
+  destruct (exec_l f b (upd env n (VNum idx))) as [[env1 [|]]|]; [inversion H; reflexivity|apply (IH _ _ _ _ _ _ _ _ H)|discriminate].
+Qed.
+
+Lemma sim_rv n b y s3 st' seg : LAYRV b y s3 st' seg -> st_resolve n (csym s3) = Some y ->
+  forall fuel G env env' br idx stp stop base, exec_rv fuel n idx stp stop b env = Some (env', br) -> forall p vs pre post,
+    pcode p = pre ++ seg ++ post -> List.length pre = List.length (ccode s3) -> consts_of p st' ->
+    ip vs = N.of_nat (List.length pre) -> PrimFloat.eqb stp 0 = false ->
+    mstate_ok G s3 env (VNum idx :: VNum stp :: VNum stop :: base) vs ->
+    sym_static (csym s3) -> slots_distinct (csym s3) ->
+    N.of_nat (List.length base) + 5 <= StackSize -> N.of_nat (List.length base) + 3 + ldepth b <= StackSize ->
+    exists vs', reaches p vs vs' /\ ip vs' = ip vs + N.of_nat (List.length seg) /\ mstate_ok G s3 env' base vs'.
+Proof.
+  intros (stx & stb & bs_b & seg_b & jf & jb & sg & HSG & H & H0 & H1 & H2 & H3 & H4 & H5 & H6 & ->) HRy.
+  set (sr := [N_of_opc StepRange; 0; 1]) in *. set (dr := [N_of_opc Drop; 0; 3]) in *.
+  set (Endp := N.of_nat (List.length (ccode s3)) + N.of_nat (List.length (sr ++ jf ++ sg ++ seg_b ++ jb))) in *.
+  induction fuel as [|f IHr]; intros G env env' br idx stp stop base HX p vs pre post HP HLen HK HI HZ HM HSS HSD HD5 HDb; [discriminate|].
+  cbn [exec_rv] in HX.
+  destruct (lay_frame) as (_ & LF & _). destruct (LF _ _ _ _ _ _ H2) as [(nb & Kb) Sb].
+  assert (HKb : consts_of p stb) by (destruct HK as (more & HK); exists more; rewrite HK, H5; reflexivity).
+  pose proof (jbytes_len _ _ _ H3) as Ljf. pose proof (jbytes_len _ _ _ H4) as Ljb. pose proof (jbytes_len _ _ _ HSG) as Lsg.
+  destruct HM as (M1 & M2 & M3 & M4 & M5).
+  pose proof (step_steprange_lv p vs pre (jf ++ sg ++ seg_b ++ jb ++ dr ++ post) idx stp stop base
+                ltac:(rewrite HP; unfold sr; rewrite <- !app_assoc; reflexivity) HI M1 HZ ltac:(rewrite M2; simpl; lia)) as R1.
+  set (base' := VNum (idx + stp)%float :: VNum stp :: VNum stop :: base) in *.
+  assert (EXIT : forall env2 vsd, ip vsd = Endp -> ostack vsd = base' -> locals vsd = [] ->
+            globals_hold env2 (csym s3) (globals vsd) -> slots_exist (csym s3) (globals vsd) -> List.length (globals vsd) = G ->
+            exists vs', reaches p vsd vs' /\ ip vs' = ip vs + N.of_nat (List.length (sr ++ jf ++ sg ++ seg_b ++ jb ++ dr)) /\ mstate_ok G s3 env2 base vs').
+  { intros env2 vsd ID OD LD GD SD ND.
+    pose proof (step_drop3 p vsd (pre ++ sr ++ jf ++ sg ++ seg_b ++ jb) post _ _ _ base
+                  ltac:(rewrite HP; unfold dr; rewrite <- !app_assoc; reflexivity)
+                  ltac:(rewrite ID; unfold Endp; rewrite !app_length, HLen, !Nat2N.inj_add; lia) OD) as RD.
+    eexists. split; [apply reaches_step; exact RD|]. split.
+    - simpl. rewrite ID, HI. unfold Endp, dr. rewrite !app_length, HLen. simpl. lia.
+    - unfold mstate_ok; simpl. repeat split; auto. }
+  destruct (going idx stp stop) eqn:HG.
+  - destruct (exec_l f b (upd env n (VNum idx))) as [[env1 brb]|] eqn:HXb; [|discriminate].
+    cbn [app] in R1.
+    set (vs1 := {| ip := ip vs + 3; ostack := VBool true :: VNum idx :: base'; locals := locals vs; globals := globals vs |}) in *.
+    pose proof (step_jof p vs1 (pre ++ sr) (sg ++ seg_b ++ jb ++ dr ++ post) jf _ true (VNum idx :: base') H3
+                  ltac:(rewrite HP, <- !app_assoc; reflexivity)
+                  ltac:(unfold vs1, sr; cbn [ip]; rewrite HI, app_length; simpl; lia) eq_refl) as R2.
+    set (vs2 := {| ip := ip vs1 + 3; ostack := VNum idx :: base'; locals := locals vs1; globals := globals vs1 |}) in *.
+    pose proof (M4 n y HRy) as HLy.
+    pose proof (step_setglobal p vs2 (pre ++ sr ++ jf) (seg_b ++ jb ++ dr ++ post) sg (sidx y) (VNum idx) base' HSG
+                  ltac:(rewrite HP, <- !app_assoc; reflexivity)
+                  ltac:(unfold vs2, vs1, sr; cbn [ip]; rewrite HI, !app_length, Ljf; simpl; lia) eq_refl
+                  ltac:(unfold vs2, vs1; cbn [globals]; exact HLy)) as R3.
+    set (vs3 := {| ip := ip vs2 + 3; ostack := base'; locals := locals vs2; globals := set_nth (N.to_nat (sidx y)) (VNum idx) (globals vs2) |}) in *.
+    assert (HM3 : mstate_ok G stx (upd env n (VNum idx)) base' vs3).
+    { apply (mstate_same G s3 stx); [exact H0|]. unfold mstate_ok, vs3, vs2, vs1; cbn [ostack locals globals]. repeat split; auto.
+      - apply store_global'; auto.
+      - intros m ym HRm. rewrite set_nth_length. apply (M4 m ym HRm).
+      - rewrite set_nth_length. exact M5. }
+    destruct (proj1 (proj2 (sim_all f)) _ b stx stb _ seg_b H2 G (upd env n (VNum idx)) env1 brb base' HXb p vs3 (pre ++ sr ++ jf ++ sg) (jb ++ dr ++ post)) as (vs4 & R4 & I4 & HM4).
+    { rewrite HP, <- !app_assoc. reflexivity. }
+    { rewrite !app_length, Ljf, Lsg. apply Nat2N.inj. rewrite H1, !Nat2N.inj_add, HLen. unfold sr. simpl. lia. }
+    { exact HKb. }
+    { unfold vs3, vs2, vs1; cbn [ip]. rewrite HI, !app_length, Ljf, Lsg. unfold sr. simpl. lia. }
+    { exact HM3. }
+    { apply (sym_static_same (csym s3)); assumption. }
+    { apply (slots_distinct_same (csym s3)); assumption. }
+    { unfold base'. cbn [List.length]. lia. }
+    pose proof (mstate_same_back G s3 stx env1 base' vs4 H0 HM4) as (B1 & B2 & B3 & B4 & B5).
+    destruct brb.
+    + inversion HX; subst env' br.
+      destruct (EXIT env1 vs4 I4 B1 B2 B3 B4 B5) as (vs' & RE & IE & ME).
+      exists vs'. split; [|split; [exact IE|exact ME]].
+      eapply reaches_trans; [apply reaches_step; exact R1|]. eapply reaches_trans; [apply reaches_step; exact R2|].
+      eapply reaches_trans; [apply reaches_step; exact R3|]. eapply reaches_trans; [exact R4|exact RE].
+    + pose proof (step_jump p vs4 (pre ++ sr ++ jf ++ sg ++ seg_b) (dr ++ post) jb _ H4
+                    ltac:(rewrite HP, <- !app_assoc; reflexivity)
+                    ltac:(rewrite I4; unfold vs3, vs2, vs1; cbn [ip]; rewrite HI, !app_length, Ljf, Lsg; unfold sr; simpl; lia)) as R5.
+      set (vs5 := {| ip := N.of_nat (List.length (ccode s3)); ostack := ostack vs4; locals := locals vs4; globals := globals vs4 |}) in *.
+      assert (HM5 : mstate_ok G s3 env1 base' vs5) by (unfold vs5, mstate_ok; simpl; repeat split; auto).
+      destruct (IHr G env1 env' br (idx + stp)%float stp stop base HX p vs5 pre post HP HLen HK) as (vs6 & R6 & I6 & HM6); auto.
+      { unfold vs5; simpl. rewrite HLen. reflexivity. }
+      exists vs6. split; [|split; [|exact HM6]].
+      * eapply reaches_trans; [apply reaches_step; exact R1|]. eapply reaches_trans; [apply reaches_step; exact R2|].
+        eapply reaches_trans; [apply reaches_step; exact R3|]. eapply reaches_trans; [exact R4|].
+        eapply reaches_trans; [apply reaches_step; exact R5|exact R6].
+      * rewrite I6. unfold vs5; simpl. rewrite HI, HLen. reflexivity.
+  - inversion HX; subst env' br. cbn [app] in R1.
+    set (vs1 := {| ip := ip vs + 3; ostack := VBool false :: base'; locals := locals vs; globals := globals vs |}) in *.
+    pose proof (step_jof p vs1 (pre ++ sr) (sg ++ seg_b ++ jb ++ dr ++ post) jf _ false base' H3
+                  ltac:(rewrite HP, <- !app_assoc; reflexivity)
+                  ltac:(unfold vs1, sr; cbn [ip]; rewrite HI, app_length; simpl; lia) eq_refl) as R2.
+    set (vs2 := {| ip := Endp; ostack := base'; locals := locals vs1; globals := globals vs1 |}) in *.
+    destruct (EXIT env vs2 eq_refl eq_refl M2 M3 M4 M5) as (vs' & RE & IE & ME).
+    exists vs'. split; [|split; [exact IE|exact ME]].
+    eapply reaches_trans; [apply reaches_step; exact R1|]. eapply reaches_trans; [apply reaches_step; exact R2|exact RE].
+Qed.
+
 (* ====================================================================== *)
 (* Part 2: the compiler lays its code out that way                         *)
 (* ====================================================================== *)
@@ -812,6 +979,16 @@ Proof.
   pose proof (make_some_range Jump T ins eq_refl HM) as HR.
   destruct (make_arg_bytes Jump T eq_refl HR) as (hi & lo & HM' & E). rewrite HM in HM'. inversion HM'; subst.
   exists [N_of_opc Jump; hi; lo]. split; [exists hi, lo; auto|reflexivity].
+Qed.
+
+Lemma emit_op_bytes o z st st' : has_operand o = true -> emit true o [z] st = COk st' ->
+  exists ins, make (N_of_opc o) [z] = Some ins /\ jbytes o (Z.to_N z) ins /\
+    st' = {| ccode := ccode st ++ ins; cconsts := cconsts st; csym := csym st; cbreaks := cbreaks st |}.
+Proof.
+  intros HO H. apply emit_ok in H. destruct H as (ins & HM & ->).
+  pose proof (make_some_range o z ins HO HM) as HR.
+  destruct (make_arg_bytes o z HO HR) as (hi & lo & HM' & E). rewrite HM in HM'. inversion HM'; subst.
+  exists [N_of_opc o; hi; lo]. split; [exact HM|]. split; [exists hi, lo; auto|reflexivity].
 Qed.
 
 Lemma patch_all_nil T s : patch_all true [] T s = COk s.
@@ -1075,6 +1252,110 @@ Proof.
   - cbn [with_breaks csym]. rewrite S8, Sb. apply pop_push_id. exact HG.
 Qed.
 
+(* `for n := range …` at top level: the prologue (define n; OpNone; OpSetGlobal)
+   and the loop part *)
+Lemma for_loop_lv_body n rop S b st : for_loop true (Some n) rop S b st =
+  (let (sym', y) := st_define n (csym st) in
+   emit true ONone [] (with_sym sym' st) >>= emit_set_var true y >>= fun st1 =>
+   emit true rop [1%Z] st1 >>= fun st2 =>
+   emit true JumpOnFalse [JumpPlaceholderZ] st2 >>= for_assign true (Some n) >>= fun st3 =>
+   body_of true b (with_sym (st_push (csym st3)) (with_breaks [] st3)) >>= fun st4 =>
+   emit true Jump [pos_of st1] (with_sym (st_pop (csym st4)) st4) >>= fun st5 =>
+   emit true Drop [S] st5 >>= fun st6 =>
+   patch true (pos_of st2) (pos_of st5) st6 >>= patch_all true (cbreaks st6) (pos_of st5) >>= fun st7 =>
+   COk (with_breaks (cbreaks st3) st7)).
+Proof. destruct b; cbn [for_loop for_declare bind body_of]; destruct (st_define n (csym st)); reflexivity. Qed.
+
+Lemma layrv_ok n b s3 st' : slist_lay b -> top_ok s3 ->
+  for_loop true (Some n) StepRange 3 b s3 = COk st' ->
+  let sym' := fst (st_define n (csym s3)) in let y := snd (st_define n (csym s3)) in
+  top_ok (with_sym sym' s3) /\ sscp y = GlobalScope /\ st_resolve n sym' = Some y /\
+  exists sg seg_r,
+    jbytes SetGlobal (sidx y) sg /\
+    LAYRV b y {| ccode := (ccode s3 ++ [N_of_opc ONone]) ++ sg; cconsts := cconsts s3; csym := sym'; cbreaks := cbreaks s3 |} st' seg_r /\
+    ccode st' = ccode s3 ++ [N_of_opc ONone] ++ sg ++ seg_r /\ cbreaks st' = cbreaks s3 /\ csym st' = sym'.
+Proof.
+  intros HB HT HC. pose proof HT as (HO & HI & HN). rewrite for_loop_lv_body in HC.
+  destruct (st_define n (csym s3)) as [sym' y] eqn:ED. cbn [fst snd].
+  assert (HD1 : fst (st_define n (csym s3)) = sym') by (rewrite ED; reflexivity).
+  assert (HD2 : snd (st_define n (csym s3)) = y) by (rewrite ED; reflexivity).
+  destruct (define_frame n (csym s3)) as (F1 & F2 & F3). rewrite HD1 in F1, F2, F3.
+  pose proof (inv_define n (csym s3) HI) as HI'. rewrite HD1 in HI'.
+  pose proof (define_then_resolve (csym s3) n) as DR. rewrite HD1, HD2 in DR.
+  assert (HO' : outers sym' = []) by congruence.
+  destruct (sym_top_globals _ HO' HI' _ _ DR) as [SG SI].
+  assert (HT' : top_ok (with_sym sym' s3)) by (repeat split; cbn [with_sym csym]; auto; congruence).
+  destruct (top_gsym _ HT') as [HG' HGB']. cbn [with_sym csym] in HG', HGB'.
+  split; [exact HT'|]. split; [exact SG|]. split; [exact DR|].
+  destruct (emit true ONone [] (with_sym sym' s3)) as [sa|] eqn:Ea; [|discriminate]. cbn [bind] in HC.
+  destruct (emit_set_var true y sa) as [st1|] eqn:Eb; [|discriminate]. cbn [bind] in HC.
+  destruct (emit true StepRange [1%Z] st1) as [st2|] eqn:E1; [|discriminate]. cbn [bind] in HC.
+  destruct (emit true JumpOnFalse [JumpPlaceholderZ] st2) as [st2'|] eqn:E2; [|discriminate]. cbn [bind] in HC.
+  destruct (for_assign true (Some n) st2') as [st3|] eqn:E2a; [|discriminate]. cbn [bind] in HC.
+  destruct (body_of true b (with_sym (st_push (csym st3)) (with_breaks [] st3))) as [st4|] eqn:E3; [|discriminate]. cbn [bind] in HC.
+  destruct (emit true Jump [pos_of st1] (with_sym (st_pop (csym st4)) st4)) as [st5|] eqn:E4; [|discriminate]. cbn [bind] in HC.
+  destruct (emit true Drop [3%Z] st5) as [st6|] eqn:E5; [|discriminate]. cbn [bind] in HC.
+  destruct (patch true (pos_of st2) (pos_of st5) st6) as [st7|] eqn:E6; [|discriminate]. cbn [bind] in HC.
+  destruct (patch_all true (cbreaks st6) (pos_of st5) st7) as [st8|] eqn:E7; [|discriminate]. cbn [bind] in HC.
+  inversion HC; subst st'; clear HC.
+  apply emit_ok in Ea. destruct Ea as (insa & HMa & ->).
+  assert (Xa : make (N_of_opc ONone) [] = Some [N_of_opc ONone]) by (vm_compute; reflexivity).
+  assert (Ya : insa = [N_of_opc ONone]) by congruence. subst insa. clear Xa HMa.
+  cbn [with_sym ccode cconsts csym cbreaks] in *.
+  unfold emit_set_var in Eb. rewrite SG in Eb. apply emit_op_bytes in Eb; [|reflexivity]. destruct Eb as (sg & HMG & HSG & ->).
+  rewrite N2Z.id in HSG. cbn [ccode cconsts csym cbreaks] in *.
+  apply emit_ok in E1. destruct E1 as (ins1 & HM1 & ->).
+  assert (X1 : make (N_of_opc StepRange) [1%Z] = Some [N_of_opc StepRange; 0; 1]) by (vm_compute; reflexivity).
+  assert (Y1 : ins1 = [N_of_opc StepRange; 0; 1]) by congruence. subst ins1. clear X1 HM1.
+  apply emit_hole_bytes in E2; [|reflexivity]. destruct E2 as (h0 & l0 & ->). cbn [ccode cconsts csym cbreaks] in *.
+  unfold for_assign in E2a. cbn [csym] in E2a. rewrite DR in E2a. unfold emit_set_var in E2a. rewrite SG in E2a.
+  apply emit_op_bytes in E2a; [|reflexivity]. destruct E2a as (sg2 & HMG2 & _ & ->).
+  assert (sg2 = sg) by congruence. subst sg2. clear HMG2. cbn [ccode cconsts csym cbreaks] in *.
+  set (sr := [N_of_opc StepRange; 0; 1]) in *.
+  set (sa := {| ccode := (ccode s3 ++ [N_of_opc ONone]) ++ sg; cconsts := cconsts s3; csym := sym'; cbreaks := cbreaks s3 |}) in *.
+  destruct (HB _ _ E3) as (bs_b & seg_b & L & Cb & Bb & Sb); cbn [with_sym with_breaks csym];
+    [apply gsym_push; exact HG'|apply has_gb_push; exact HGB'|].
+  cbn [with_sym with_breaks ccode cconsts csym cbreaks app] in Cb, Bb, Sb.
+  apply emit_jump_bytes in E4. destruct E4 as (jb & HJB & ->). cbn [with_sym ccode cconsts csym cbreaks] in *.
+  apply emit_ok in E5. destruct E5 as (ins5 & HM5 & ->).
+  assert (X5 : make (N_of_opc Drop) [3%Z] = Some [N_of_opc Drop; 0; 3]) by (vm_compute; reflexivity).
+  assert (Y5 : ins5 = [N_of_opc Drop; 0; 3]) by congruence. subst ins5. clear X5 HM5.
+  cbn [ccode cconsts csym cbreaks] in *.
+  set (dr := [N_of_opc Drop; 0; 3]) in *.
+  pose proof (jbytes_len _ _ _ HJB) as Ljb. pose proof (jbytes_len _ _ _ HSG) as Lsg.
+  assert (C6 : (ccode st4 ++ jb) ++ dr = (ccode sa ++ sr) ++ N_of_opc JumpOnFalse :: h0 :: l0 :: (sg ++ seg_b ++ jb ++ dr)).
+  { rewrite Cb. unfold sa. cbn [ccode]. rewrite <- !app_assoc. reflexivity. }
+  assert (EP : pos_of {| ccode := ccode sa ++ sr; cconsts := cconsts s3; csym := sym'; cbreaks := cbreaks s3 |} = Z.of_nat (List.length (ccode sa ++ sr)))
+    by reflexivity.
+  change (((ccode s3 ++ [N_of_opc ONone]) ++ sg) ++ sr) with (ccode sa ++ sr) in E6. rewrite EP in E6.
+  match type of E6 with patch _ _ ?T0 ?s0 = _ =>
+    destruct (patch_bytes (ccode sa ++ sr) _ h0 l0 (sg ++ seg_b ++ jb ++ dr) T0 s0 st7 C6 E6) as (HTz & hi & lo & EH & ->) end.
+  cbn [ccode cconsts csym cbreaks] in E7 |- *. rewrite Bb in E7.
+  set (jf := [N_of_opc JumpOnFalse; hi; lo]).
+  match type of E7 with patch_all _ _ ?T0 ?x = _ =>
+    destruct (proj1 (proj2 (lay_brk_patch T0)) _ _ _ _ _ _ L eq_refl x st8 (((ccode sa ++ sr) ++ jf) ++ sg) (jb ++ dr)) as (seg_b' & C8 & K8 & S8 & B8 & L8 & LY8);
+      [cbn [ccode]; unfold jf; rewrite <- !app_assoc; reflexivity
+      |cbn [with_sym with_breaks ccode]; unfold jf, sa; cbn [ccode]; rewrite !app_length; reflexivity
+      |exact E7|] end.
+  cbn [ccode cconsts csym cbreaks] in C8, K8, S8, B8.
+  assert (LEN : N.of_nat (List.length (ccode sa)) + N.of_nat (List.length (sr ++ jf ++ sg ++ seg_b' ++ jb)) = hi * 256 + lo).
+  { rewrite EH. unfold pos_of. cbn [ccode]. rewrite Cb. unfold sa. cbn [ccode].
+    rewrite ?app_length; simpl List.length; rewrite ?app_length; simpl List.length; lia. }
+  match type of LY8 with LAYL (Some ?X) _ _ _ _ _ => replace X with (N.of_nat (List.length (ccode sa)) + N.of_nat (List.length (sr ++ jf ++ sg ++ seg_b' ++ jb))) in LY8 by (rewrite LEN, EH; reflexivity) end.
+  assert (SF : st_pop (csym st4) = sym') by (rewrite Sb; apply pop_push_id; exact HG').
+  exists sg, (sr ++ jf ++ sg ++ seg_b' ++ jb ++ dr).
+  split; [exact HSG|]. split; [|split; [|split]].
+  - unfold LAYRV. match type of LY8 with LAYL _ _ ?stx _ _ _ => exists stx, st4, bs_b, seg_b', jf, jb, sg end.
+    split; [exact HSG|]. split; [reflexivity|]. split; [apply same_resolve_push|].
+    split; [cbn [with_sym with_breaks ccode]; unfold sa, sr; cbn [ccode]; rewrite !app_length, Lsg; simpl; lia|].
+    split; [exact LY8|]. split; [exists hi, lo; split; [reflexivity|symmetry; exact LEN]|].
+    split; [change (pos_of sa) with (pos_of sa) in HJB; rewrite pos_pcof, N2Z.id in HJB; exact HJB|].
+    split; [cbn [with_breaks cconsts]; exact K8|]. split; [cbn [with_breaks csym]; rewrite S8; exact SF|reflexivity].
+  - cbn [with_breaks ccode]. rewrite C8. unfold jf, sa. cbn [ccode]. rewrite <- !app_assoc. reflexivity.
+  - reflexivity.
+  - cbn [with_breaks csym]. rewrite S8. exact SF.
+Qed.
+
 Lemma lay_forstep_ok start stop step b st st' :
   ofrag start = true -> efrag stop = true -> ofrag step = true -> slist_lay b ->
   compile_stmt true (SForStep None start stop step b) st = COk st' -> gsym (csym st) -> has_gb (csym st) ->
@@ -1330,7 +1611,12 @@ Proof.
   - cbn [nb_clist] in H1. apply andb_true_iff in H1. destruct H1 as [F1 F2]. rewrite (H F1), (H0 F2 H2). reflexivity.
 Qed.
 
-Definition psfrag_stmt (s : stmt) : bool := match s with SDecl _ e => efrag e | _ => wfrag_stmt s && nb_stmt s end.
+Definition psfrag_stmt (s : stmt) : bool :=
+  match s with
+  | SDecl _ e => efrag e
+  | SForStep (Some _) start stop step b => ofrag start && efrag stop && ofrag step && wfrag_slist b
+  | _ => wfrag_stmt s && nb_stmt s
+  end.
 Fixpoint psfrag (p : slist) : bool := match p with SNil => true | SCons s t => psfrag_stmt s && psfrag t end.
 
 Definition STEP (s : stmt) (st st' : cstate) : Prop :=
@@ -1386,10 +1672,115 @@ Proof.
   exists vs'. repeat split; auto. rewrite S. exact A3.
 Qed.
 
+(* `for n := range [start] stop [step]` at top level: n becomes a global *)
+Lemma step_forstep_lv n start stop step b st st' :
+  ofrag start = true -> efrag stop = true -> ofrag step = true -> wfrag_slist b = true ->
+  compile_stmt true (SForStep (Some n) start stop step b) st = COk st' -> top_ok st ->
+  STEP (SForStep (Some n) start stop step b) st st'.
+Proof.
+  intros F1 F2 F3 F4 HC HT fuel env env1 HX. pose proof HT as (HO & HI & HN).
+  pose proof (ofrag_expr step 1 F3) as F3'. pose proof (ofrag_expr start 0 F1) as F1'.
+  destruct fuel as [|f]; [discriminate|]. cbn [exec_s] in HX. cbn [compile_stmt] in HC.
+  set (estep := match step with OSome e => e | ONoneE => ENum 1 end) in *.
+  set (estart := match start with OSome e => e | ONoneE => ENum 0 end) in *.
+  destruct (eval_expr env stop) as [[vstop| | | | | |]|] eqn:HE1; try discriminate.
+  destruct (eval_expr env estep) as [[vstep| | | | | |]|] eqn:HE2; try discriminate.
+  destruct (eval_expr env estart) as [[vstart| | | | | |]|] eqn:HE3; try discriminate.
+  destruct (PrimFloat.eqb vstep 0) eqn:HZ; [discriminate|].
+  destruct (compile_expr true stop st) as [s1|] eqn:E1; [|discriminate]. cbn [bind] in HC.
+  destruct (compile_expr true estep s1) as [s2|] eqn:E2; [|discriminate]. cbn [bind] in HC.
+  destruct (compile_expr true estart s2) as [s3|] eqn:E3; [|discriminate]. cbn [bind] in HC.
+  destruct (efrag_sl _ F2 st s1 E1) as (S1 & o1 & c1 & C1 & K1 & _).
+  destruct (efrag_sl _ F3' s1 s2 E2) as (S2 & o2 & c2 & C2 & K2 & _).
+  destruct (efrag_sl _ F1' s2 s3 E3) as (S3 & o3 & c3 & C3 & K3 & _).
+  assert (HT3 : top_ok s3) by (unfold top_ok; rewrite S3, S2, S1; exact HT).
+  destruct (layrv_ok n b s3 st' (proj1 (proj2 lay_all) b F4) HT3 HC) as (HT' & SG & DR & sg & seg_r & HSG & LR & CR & BR & SR).
+  set (sym' := fst (st_define n (csym s3))) in *. set (y := snd (st_define n (csym s3))) in *.
+  set (sa := {| ccode := (ccode s3 ++ [N_of_opc ONone]) ++ sg; cconsts := cconsts s3; csym := sym'; cbreaks := cbreaks s3 |}) in *.
+  destruct (define_frame n (csym s3)) as (FD1 & FD2 & FD3). fold sym' in FD1, FD2, FD3.
+  assert (KR : exists nr, cconsts st' = cconsts s3 ++ nr).
+  { destruct LR as (stx & stb & bs_b & seg_b & jf & jb & sg0 & _ & Kx & _ & _ & LL & _ & _ & Kb & _).
+    destruct (proj1 (proj2 lay_frame) _ _ _ _ _ _ LL) as [(nb & Knb) _]. exists nb. rewrite Kb, Knb, Kx. reflexivity. }
+  destruct KR as (nr & KR).
+  split; [unfold top_ok; rewrite SR; exact HT'|]. split; [rewrite SR, <- S1, <- S2, <- S3; exact FD3|].
+  exists (encode o1 ++ encode o2 ++ encode o3 ++ [N_of_opc ONone] ++ sg ++ seg_r), (c1 ++ c2 ++ c3 ++ nr).
+  split; [rewrite CR, C3, C2, C1, <- !app_assoc; reflexivity|]. split; [rewrite KR, K3, K2, K1, <- !app_assoc; reflexivity|].
+  intros p vs pre post HP HLen HK HI0 HOs HLs HIdx HGl HD. cbn [sdepth] in HD. fold estep estart in HD.
+  set (G := List.length (globals vs)).
+  destruct (top_static st HT) as [HSS HSD].
+  assert (HIdx0 : index (cur (csym st)) <= N.of_nat G) by (rewrite SR in HIdx; rewrite <- S1, <- S2, <- S3; unfold G; lia).
+  assert (HM : mstate_ok G st env [] vs).
+  { repeat split; auto. intros m ym HR. destruct (top_globals st HT m ym HR) as [_ HI2]. unfold G in HIdx0. lia. }
+  assert (HK3 : consts_of p s3) by (apply (consts_of_prefix p s3 st' nr KR HK)).
+  assert (HK2 : consts_of p s2) by (apply (consts_of_prefix p s2 s3 c3 K3 HK3)).
+  assert (HK1 : consts_of p s1) by (apply (consts_of_prefix p s1 s2 c2 K2 HK2)).
+  set (seg1 := encode o1) in *. set (seg2 := encode o2) in *. set (seg3 := encode o3) in *.
+  pose proof (expr_runs G stop st s1 seg1 env (VNum vstop) [] p vs pre (seg2 ++ seg3 ++ [N_of_opc ONone] ++ sg ++ seg_r ++ post) F2 E1 C1 HE1 HSS
+                ltac:(rewrite HP, <- !app_assoc; reflexivity) HK1 HI0 HM ltac:(cbn [List.length]; lia)) as R1.
+  set (vs1 := {| ip := ip vs + N.of_nat (List.length seg1); ostack := [VNum vstop]; locals := locals vs; globals := globals vs |}) in *.
+  destruct HM as (M1 & M2 & M3 & M4 & M5).
+  assert (HM1 : mstate_ok G s1 env [VNum vstop] vs1).
+  { unfold mstate_ok, vs1; simpl. rewrite S1. repeat split; auto. }
+  assert (HSS1 : sym_static (csym s1)) by (rewrite S1; exact HSS).
+  pose proof (expr_runs G estep s1 s2 seg2 env (VNum vstep) [VNum vstop] p vs1 (pre ++ seg1) (seg3 ++ [N_of_opc ONone] ++ sg ++ seg_r ++ post) F3' E2 C2 HE2 HSS1
+                ltac:(rewrite HP, <- !app_assoc; reflexivity) HK2 ltac:(unfold vs1; simpl; rewrite HI0, app_length; lia) HM1
+                ltac:(cbn [List.length]; lia)) as R2.
+  set (vs2 := {| ip := ip vs1 + N.of_nat (List.length seg2); ostack := [VNum vstep; VNum vstop]; locals := locals vs1; globals := globals vs1 |}) in *.
+  assert (HM2 : mstate_ok G s2 env [VNum vstep; VNum vstop] vs2).
+  { unfold mstate_ok, vs2, vs1; simpl. rewrite S2, S1. repeat split; auto. }
+  assert (HSS2 : sym_static (csym s2)) by (rewrite S2, S1; exact HSS).
+  pose proof (expr_runs G estart s2 s3 seg3 env (VNum vstart) [VNum vstep; VNum vstop] p vs2 (pre ++ seg1 ++ seg2) ([N_of_opc ONone] ++ sg ++ seg_r ++ post) F1' E3 C3 HE3 HSS2
+                ltac:(rewrite HP, <- !app_assoc; reflexivity) HK3 ltac:(unfold vs2, vs1; simpl; rewrite HI0, !app_length; lia) HM2
+                ltac:(cbn [List.length]; lia)) as R3.
+  set (vs3 := {| ip := ip vs2 + N.of_nat (List.length seg3); ostack := [VNum vstart; VNum vstep; VNum vstop]; locals := locals vs2; globals := globals vs2 |}) in *.
+  (* the prologue: OpNone; OpSetGlobal n *)
+  pose proof (step_onone p vs3 (pre ++ seg1 ++ seg2 ++ seg3) (sg ++ seg_r ++ post)
+                ltac:(rewrite HP, <- !app_assoc; reflexivity)
+                ltac:(unfold vs3, vs2, vs1; simpl; rewrite HI0, !app_length; lia)
+                ltac:(unfold vs3, vs2, vs1; simpl; rewrite M2; simpl; lia)) as R4.
+  set (vs4 := {| ip := ip vs3 + 1; ostack := VNone :: ostack vs3; locals := locals vs3; globals := globals vs3 |}) in *.
+  destruct (sym_top_globals _ (proj1 HT') (proj1 (proj2 HT')) _ _ DR) as [_ SI]. cbn [with_sym csym] in SI.
+  assert (HLy : (N.to_nat (sidx y) < List.length (globals vs))%nat) by (rewrite SR in HIdx; lia).
+  pose proof (step_setglobal p vs4 (pre ++ seg1 ++ seg2 ++ seg3 ++ [N_of_opc ONone]) (seg_r ++ post) sg (sidx y) VNone [VNum vstart; VNum vstep; VNum vstop] HSG
+                ltac:(rewrite HP, <- !app_assoc; reflexivity)
+                ltac:(unfold vs4, vs3, vs2, vs1; simpl; rewrite HI0, !app_length; simpl; lia) eq_refl
+                ltac:(unfold vs4, vs3, vs2, vs1; simpl; exact HLy)) as R5.
+  set (vs5 := {| ip := ip vs4 + 3; ostack := [VNum vstart; VNum vstep; VNum vstop]; locals := locals vs4;
+                 globals := set_nth (N.to_nat (sidx y)) VNone (globals vs4) |}) in *.
+  pose proof (jbytes_len _ _ _ HSG) as Lsg.
+  assert (HM5 : mstate_ok G sa (upd env n VNone) [VNum vstart; VNum vstep; VNum vstop] vs5).
+  { unfold mstate_ok, vs5, vs4, vs3, vs2, vs1, sa; cbn [ostack locals globals csym]. repeat split; auto.
+    - apply (store_global env n VNone y (csym st) sym' (globals vs) (proj1 HT') (proj1 (proj2 HT')) DR); auto.
+      intros m Em. unfold sym'. rewrite S3, S2, S1. apply define_resolve_other. intros ->. rewrite str_eqb_refl in Em. discriminate.
+    - intros m ym HRm. rewrite set_nth_length. destruct (sym_top_globals _ (proj1 HT') (proj1 (proj2 HT')) _ _ HRm) as [_ X].
+      cbn [with_sym csym] in X. rewrite SR in HIdx. lia.
+    - rewrite set_nth_length. reflexivity. }
+  destruct (top_static _ HT') as [HSSa HSDa]. cbn [with_sym csym] in HSSa, HSDa.
+  destruct (sim_rv n b y sa st' seg_r LR DR f G (upd env n VNone) env1 false vstart vstep vstop [] HX p vs5
+              (pre ++ seg1 ++ seg2 ++ seg3 ++ [N_of_opc ONone] ++ sg) post) as (vs6 & R6 & I6 & HM6); auto.
+  { rewrite HP, <- !app_assoc. reflexivity. }
+  { unfold sa. cbn [ccode]. rewrite C3, C2, C1. fold seg1 seg2 seg3. rewrite !app_length, HLen. simpl. lia. }
+  { unfold vs5, vs4, vs3, vs2, vs1; cbn [ip]. rewrite HI0, !app_length, Lsg. simpl. lia. }
+  { cbn [List.length]. lia. }
+  { cbn [List.length]. lia. }
+  destruct HM6 as (A1 & A2 & A3 & A4 & A5).
+  exists vs6. split; [|split; [|split; [exact A1|split; [exact A2|split; [exact A5|rewrite SR; exact A3]]]]].
+  - eapply reaches_trans; [exact R1|]. eapply reaches_trans; [exact R2|]. eapply reaches_trans; [exact R3|].
+    eapply reaches_trans; [apply reaches_step; exact R4|]. eapply reaches_trans; [apply reaches_step; exact R5|exact R6].
+  - rewrite I6. unfold vs5, vs4, vs3, vs2, vs1; cbn [ip]. rewrite !app_length, Lsg. simpl. lia.
+Qed.
+
 Lemma step_of_stmt s st st' : psfrag_stmt s = true -> compile_stmt true s st = COk st' -> top_ok st -> STEP s st st'.
 Proof.
-  intros HF HC HT. destruct s; try (cbn [psfrag_stmt] in HF; apply andb_true_iff in HF; destruct HF as [F1 F2]; apply step_ctl; assumption).
-  apply (step_decl n e st st' HF HC HT).
+  intros HF HC HT.
+  assert (GEN : wfrag_stmt s && nb_stmt s = true -> STEP s st st').
+  { intro X. apply andb_true_iff in X. destruct X as [X1 X2]. apply step_ctl; assumption. }
+  destruct s; try (apply GEN; exact HF).
+  - apply (step_decl n e st st' HF HC HT).
+  - destruct lv as [n|]; [|apply GEN; exact HF]. cbn [psfrag_stmt] in HF.
+    apply andb_true_iff in HF. destruct HF as [HF F4]. apply andb_true_iff in HF. destruct HF as [HF F3].
+    apply andb_true_iff in HF. destruct HF as [F1 F2].
+    apply (step_forstep_lv n start stop step b st st' F1 F2 F3 F4 HC HT).
 Qed.
 
 (* compile_correct for programs with control flow: top-level declarations,
